@@ -24,3 +24,13 @@ for v in (0, 1):
         ob(v, "hf_open_detached", ["C02", "C01", "C12", "C13"], "tag verified first over the whole ciphertext; on failure -1, output untouched, no keystream applied; verify-only mode; success path mirrors sealing"),
         ob(v, "hf_open_easy", ["C02", "C01", "C12"], "clen < 16 rejected untouched; otherwise open_detached(c+16, mac=c, clen-16)"),
     ]
+
+# ---- C13: overlapping message / ciphertext buffers (one object, constant relative offset, every length <= 80) ----
+for v in (0, 1):
+    for d, t in ((-40, "quick"), (-17, "quick"), (-1, "quick"), (0, "quick"), (1, "quick"), (17, "quick"), (40, "quick"), (-80, "thorough"), (-33, "thorough"), (-31, "thorough"), (31, "thorough"), (33, "thorough"), (80, "thorough")):
+        for entry in ("hb_overlap_seal", "hb_overlap_open"):
+            OBLIGATIONS.append({"name": "c13.b.secretbox.%s.%s.delta_%d" % (NAMES[v], entry[11:], d), "props": ["C13", "C12"], "kind": "B", "tier": t, "src": "harness/secretbox.c", "entry": entry,
+                "defs": ["-DVAR=%d" % v, "-DVLMAX=80ULL", "-DVBUFSZ=96", "-DVDELTA=(%d)" % d], "cbmc": ["--unwind", "66", "--unwinding-assertions", "--object-bits", "14"], "solver": "kissat", "timeout": 600,
+                "functions": ["crypto_secretbox%s_%s" % ("" if v == 0 else "_xchacha20poly1305", "detached" if entry.endswith("seal") else "open_detached")],
+                "what": "message and ciphertext overlapping in one object with output - input = %d bytes: every stream call gets identical or non-overlapping buffers and consumes the ORIGINAL input bytes, so the result equals the disjoint-buffer result" % d,
+                "assumes": ASSUME + ["memmove over-approximated: first 64 bytes and one ghost byte exact, the rest arbitrary"], "bound": "message length <= 80 bytes, relative offset %d" % d})
